@@ -62,6 +62,9 @@ def run_case(args):
             r["occ"] = {t.split("=")[0]: int(t.split("=")[1]) for t in l.split()[2:] if re.match(r"^\w+=\d+$", t)}
         elif l.startswith("IMGCMP after-init"):
             r["variant"] = re.search(r"variant=(\S+)", l).group(1)
+            r["bytes"] = int(re.search(r"bytes=(\d+)", l).group(1))
+        elif l.startswith("IMGCMP after-followup"):
+            r["data_plane_diff"] = int(re.search(r"diff_scratch=(\d+)", l).group(1))
     r["stale"] = sorted({re.search(r"region=(\S+)", l).group(1) for l in lines if l.startswith("IMGDIFF") and "used=0" in l})
     r["violation"] = (rc not in (0, 3)) or bool(r["fails"])
     r["skipped"] = rc == 3
@@ -88,7 +91,7 @@ def signature(r, case=None):
 
 def cases_for(rng, pool, parks, tier, variants):
     cases = []
-    reps = 1 if tier == "quick" else 6
+    reps = 1 if tier == "quick" else 16
     for rep in range(reps):
         for old in variants:
             for new in variants:
@@ -96,7 +99,7 @@ def cases_for(rng, pool, parks, tier, variants):
                 nfol = 30 + rng.below(30) if tier == "quick" else 30 + rng.below(120)
                 cases.append(make_case(rng, pool, parks, old, new, npre, nfol))
     # chains through an intermediate variant (stale state of a manager the middle variant never touches)
-    nch = 6 if tier == "quick" else 40
+    nch = 6 if tier == "quick" else 120
     for _ in range(nch):
         old, via, new = rng.choice(variants), rng.choice(variants), rng.choice(variants)
         cases.append(make_case(rng, pool, parks, old, new, 20 + rng.below(60), 30 + rng.below(30), via=via))
@@ -169,7 +172,9 @@ def main(tier, seed):
         "alone_results_compared": sum(r["summary"].get("alone_checked", 0) for r in ran),
         "managers_with_inflight_lanes_at_reinit": {v: len(d) for v, d in occ_cov.items()},
         "managers_used_per_variant": {vname(v): len({f for f in parks[v] if f and f != "immediate"}) for v in parks},
-        "image_bytes_compared_per_evaluation": 229288 if not info else None,
+        "image_bytes_compared_per_evaluation": max([r.get("bytes", 0) for r in ran] + [0]),
+        "data_plane_bytes_differing_after_followup (kernel scratch filled from caller registers; reported, not counted)":
+            sum(r.get("data_plane_diff", 0) for r in ran),
         "stale_unused_managers (not state of the new variant, reported in notes)": {k: sorted(v) for k, v in stale.items()},
         "reset_images_compared_in_coq": len(info["resets"]) if info else 0,
         "samples": [{"old": c["old"], "new": c["new"], "kprefix": c["kprefix"], "first_ops": c["script"][-8:]} for c in cases[:2]],
